@@ -359,3 +359,56 @@ def match_arms_fn(text, features):
         raise AnchorLost("match_expression: the arm loop is outside the transcription rules")
     return ("fn match_arms(match_expr: &MatchExpression, detached_source: Value, base_env: Environment, p: &mut Interpreter) -> (res: Result<Value, MechError>)\n"
             + MATCH_ENS + "{\n    proof { lemma_first_hit(match_expr.arms@, detached_source, base_env, 0); }\n" + b + "\n}\n")
+
+
+# ---------------------------------------------------------------------------------------------------------------------
+# broadcast of a single-argument scalar function over a matrix
+def _bcast_model():
+    import os
+    return open(os.path.join(os.path.dirname(os.path.dirname(os.path.abspath(__file__))), "contracts", "C16", "bcastmodel.rs")).read()
+
+
+BCAST_ENS = """  ensures ({
+    let f = *fxn_def; let args = input_arg_values@;
+    let src = dv(args[0]);
+    &&& (!applicable(f, args) ==> (res matches Ok(None)) && final(p).log@ == old(p).log@)
+    &&& (applicable(f, args) ==> (match (ka(f.code.input@[0].kind.kind), ka(f.code.output@[0].kind.kind)) {
+          (Some(ik), Some(ok)) => if ik is Matrix || mlv(src) is None { (res matches Ok(None)) && final(p).log@ == old(p).log@ } else if ik != ok { true /* differing input / output kinds: the property does not say; nothing is claimed */ } else {
+              let els = mlv(src).unwrap();
+              match map_f(f.id, els, els.len() as int, old(p).log@) {
+                // the matrix, of the source's shape, of the function applied to each element -- each element once, in order
+                Some(outs) => (res matches Ok(Some(v)) && v == assemble(ok, outs, shp(src).0, shp(src).1)) && final(p).log@ == old(p).log@ + els,
+                None => res is Err,
+              }
+            },
+          _ => res is Err,
+        }))
+  }),
+"""
+
+
+def bcast_fn(text, features):
+    """`try_broadcast_user_function` (whole body): B1 `#[cfg(..)]` evaluated; B2 `kind_annotation(&X, p)?.to_value_kind(..)?` -> `expected_kind_of(&X, p)?`;
+    B3 `for element in elements {` -> `for i_ in 0..elements.len() { let element = vec_take(&elements, i_);` (consuming iteration); B4 `crate::patterns::` dropped;
+    `MResult<T>` -> `Result<T, MechError>`, `p: &Interpreter` -> `&mut Interpreter` (ghost call log)"""
+    sig, body = extract_fn(text, "try_broadcast_user_function")
+    if len(vlib.param_names(sig)) != 3:
+        raise AnchorLost("try_broadcast_user_function: parameter list changed")
+    b = re.sub(r"//[^\n]*", "", body[body.index("{") + 1:body.rindex("}")]).replace("\r", "")
+    b = vlib.canon_bindings(sig, b, ["fxn_def", "input_arg_values", "p"], ['source', 'input_kind', 'output_kind', 'elements', 'outputs', 'element', 'shape'])
+    b = apply_cfg(b, features)
+    b = re.sub(r"kind_annotation\(\s*&((?:\w|\.|\[|\])+)\s*,\s*p\s*\)\s*\?\s*\.to_value_kind\((?:[^()]|\([^()]*\))*\)\s*\?", r"expected_kind_of(&\1, p)?", b)
+    b = b.replace("crate::patterns::", "")
+    INV = ("    invariant elements@.len() == mlv(source).unwrap().len(), mlv(source) == Some(elements@), i_ <= elements@.len(),\n"
+           "      applicable(*fxn_def, input_arg_values@), source == dv(input_arg_values@[0]), ka(fxn_def.code.input@[0].kind.kind) == Some(input_kind),\n"
+           "      ka(fxn_def.code.output@[0].kind.kind) == Some(output_kind), input_kind == output_kind, !(input_kind is Matrix),\n"
+           "      p.log@ == old(p).log@ + elements@.subrange(0, i_ as int),\n"
+           "      map_f(fxn_def.id, elements@, i_ as int, old(p).log@) == Some(outputs@),\n")
+    b, n = re.subn(r"for\s+element\s+in\s+elements\s*\{", "for i_ in 0..elements.len()\n" + INV + "  {\n    let element = vec_take(&elements, i_);\n    proof { reveal_with_fuel(map_f, 2); lemma_map_f_none(fxn_def.id, elements@, i_ + 1, elements@.len() as int, old(p).log@); assert(elements@.subrange(0, i_ + 1) =~= elements@.subrange(0, i_ as int).push(elements@[i_ as int])); assert(old(p).log@ + elements@.subrange(0, i_ + 1) =~= (old(p).log@ + elements@.subrange(0, i_ as int)).push(elements@[i_ as int])); }", b)
+    if n != 1:
+        raise AnchorLost("try_broadcast_user_function: the loop over the elements not found")
+    b = re.sub(r"(let\s+shape\s*=)", r"proof { assert(elements@.subrange(0, elements@.len() as int) =~= elements@); assert(old(p).log@ + Seq::<Value>::empty() =~= old(p).log@); }\n  \1", b, count=1)
+    if re.search(r"\b(kind_annotation\(|to_value_kind|cfg|crate)\b", b):
+        raise AnchorLost("try_broadcast_user_function: statements outside the transcription rules")
+    return ("fn try_broadcast_user_function(fxn_def: &FunctionDefinition, input_arg_values: &Vec<Value>, p: &mut Interpreter) -> (res: Result<Option<Value>, MechError>)\n"
+            + BCAST_ENS + "{\n" + b + "\n}\n")
